@@ -11,7 +11,7 @@ RULE = ('Part heap (model-based, histories): generated alloc/free histories of 1
         'split both occur; frees biased to chunks next to free chunks and to the last chunk so both coalescing branches and the tail trim run), '
         'interpreted against an interval model; after every step: returned region disjoint from all live ones, chunks tile [0, current_size), '
         'released is sorted and is exactly the non-live chunks, no two adjacent free chunks, no free chunk at the end, max_size = maximum end ever '
-        'handed out. Part heap_machine: the same obligations driven by a Hypothesis RuleBasedStateMachine. Part map: generated netlists x per-line '
+        'handed out. Part heap_machine: the same obligations driven by a Hypothesis RuleBasedStateMachine. Part map: generated netlists (sometimes with one port listed twice in the interface) x per-line '
         'capacity vectors x c_caps_min in {1,4} x {c_reuse} x {strip_forks}: live interval of every written signal recomputed in levels from ops / '
         'level_starts (stems by walking the circuit); signals with overlapping live intervals have disjoint regions, all regions inside [0, c_len), '
         'stripped branches alias their stem, output slots alias s_nodes[i].ins[0], inputs / captured lines / special slots live for ever. '
@@ -189,7 +189,8 @@ def map_cases(draw, tier):
     large = draw(st.integers(0, 19)) == 0
     nl = draw(S.netlists(max_g=(400 if big else 150) if large else (30 if big else 14), min_g=100 if large else 0, max_pi=5, max_st=3, need_d=False))
     return dict(nl=nl, caps=draw(st.one_of(st.sampled_from([1, 4, 16]), st.lists(st.sampled_from([1, 2, 4, 4, 8, 12, 16, 32]), min_size=3, max_size=12))),
-                cmin=draw(st.sampled_from([1, 4])), c_reuse=draw(st.sampled_from([True, True, False])), strip_forks=draw(st.booleans()))
+                cmin=draw(st.sampled_from([1, 4])), c_reuse=draw(st.sampled_from([True, True, False])), strip_forks=draw(st.booleans()),
+                dup=draw(st.sampled_from([0, 0, 0, 1, 2, 3])))
 
 
 def prop_map(case):
@@ -208,6 +209,8 @@ def prop_map(case):
         b = build(case['nl'])
         c = b.c
         pi_ids = {id(n) for n in b.pi} | {id(n) for n in b.st}
+        if case.get('dup') and b.po:        # a port listed twice in the interface (bench: the same signal in two OUTPUT statements) has two slots
+            c.io_nodes.append(b.po[case['dup'] % len(b.po)])
     nlines = len(c.lines)
     caps = W.caps_for(nlines, case['caps'])
     s = SimOps(c, c_caps=caps, c_caps_min=case['cmin'], c_reuse=case['c_reuse'], strip_forks=case['strip_forks'])
@@ -303,6 +306,7 @@ def prop_map(case):
     if case['strip_forks']: labels.append('strip_forks')
     if shared: labels.append('region_shared_over_time')
     if not isinstance(case['caps'], int): labels.append('per_line_caps')
+    if case.get('dup') and 'big' not in case: labels.append('port_listed_twice')
     return Obs(case['c_reuse'] and shared, labels, checks=len(regions))
 
 
